@@ -652,6 +652,49 @@ class Inliner(object):
       fn.decorator_list = saved
     var = st.items[0].optional_vars
     done = []
+    # Leaving the block by return / break / continue resumes the generator
+    # after its yield: code that follows the yield on the normal path must
+    # still run.  Handled: nothing follows the yield except `finally` parts, or
+    # the yield is at the top level of the helper and the block's only jump is
+    # a trailing `return E` (E is evaluated, the rest of the helper runs, then
+    # the value is returned).
+    jumps = [x for s_ in st.body for x in ast.walk(s_)
+             if isinstance(x, (ast.Return, ast.Break, ast.Continue))]
+    top_idx = [i for i, s_ in enumerate(pre) if isinstance(s_, ast.Expr) and
+               isinstance(s_.value, ast.Call) and isinstance(
+                   s_.value.func, ast.Name) and s_.value.func.id == marker]
+
+    def follows(stmts):
+      """True if something follows the marker on the normal path."""
+      for i, s_ in enumerate(stmts):
+        if isinstance(s_, ast.Expr) and isinstance(s_.value, ast.Call) and \
+            isinstance(s_.value.func, ast.Name) and \
+            s_.value.func.id == marker:
+          return bool(stmts[i + 1:])
+        for field in ('body', 'orelse'):
+          b = getattr(s_, field, None)
+          if isinstance(b, list) and b and isinstance(b[0], ast.stmt) and any(
+              isinstance(x, ast.Name) and x.id == marker
+              for y in b for x in ast.walk(y)):
+            return follows(b) or bool(stmts[i + 1:])
+      return False
+    tail_return = None
+    body_stmts = list(st.body)
+    if jumps and follows(pre):
+      if top_idx and len(jumps) == 1 and isinstance(
+          st.body[-1], ast.Return) and jumps[0] is st.body[-1]:
+        self.counter += 1
+        rname = 'with_result_inl%d' % self.counter
+        val = st.body[-1].value or ast.Constant(value=None)
+        body_stmts = list(st.body[:-1]) + [ast.copy_location(ast.Assign(
+            targets=[ast.Name(id=rname, ctx=ast.Store())], value=val),
+                                                             st.body[-1])]
+        tail_return = ast.copy_location(ast.Return(
+            value=ast.Name(id=rname, ctx=ast.Load())), st.body[-1])
+        caller_names.add(rname)
+      else:
+        raise NotInlinable('the with block jumps out past code that follows '
+                           'the yield')
 
     def splice(stmts):
       out = []
@@ -662,7 +705,7 @@ class Inliner(object):
             val = s.value.args[0] if s.value.args else ast.Constant(value=None)
             out.append(ast.copy_location(ast.Assign(targets=[var], value=val),
                                          st))
-          out.extend(st.body)
+          out.extend(body_stmts)
           done.append(1)
           continue
         for field in ('body', 'orelse', 'finalbody'):
@@ -676,6 +719,8 @@ class Inliner(object):
     new = splice(pre)
     if len(done) != 1:
       raise NotInlinable('yield not found after expansion')
+    if tail_return is not None:
+      new.append(tail_return)
     return new
 
   # -- a whole function
